@@ -267,7 +267,8 @@ def integrateFuncJac(func, jac, x0, t0, t, args=(), includeOrigin=False,
             # TODO: switches
             o1 = _integrateOneStep(r, deltaT, func, jac, args, False)
         # append solution, same thing whether the output is full or not
-        solution.append(o1)
+        # (a copy: the lsoda integrator hands back the same buffer at every step)
+        solution.append(np.copy(o1))
     # finish integration
 
     solution = np.array(solution)
